@@ -647,7 +647,9 @@ def op_pdu_fac(a):
     from spacepackets.cfdp.pdu.helper import PduFactory
 
     def run():
-        obj, conf, params, _ = mk_pdu(a["kind"], a["cfg"], a["p"])
+        # (the PDU handed to the factory's peer was constructed, or reached its values through setters)
+        mk = mk_pdu_via_setters if (len(a["cfg"]["seq"]) + a["cfg"]["crc"] + len(a.get("sfx", []))) % 2 else mk_pdu
+        obj, conf, params, _ = mk(a["kind"], a["cfg"], a["p"])
         raw = bytes(owned(obj.pack))
         return after_pack(raw, lambda: rest(obj, raw, conf))
 
